@@ -133,7 +133,22 @@ func (c *ctx) checkClientPatch(kind string, base, patch *pb.ClientConfig, set ma
 			continue
 		}
 		if set[f.name] {
-			if !equiv(f.sel(after), f.sel(patch)) {
+			want := f.sel(patch)
+			if f.name == "advancedSettings" {
+				// members of advancedSettings the patch does not name keep their value
+				m := &pb.ClientConfig{}
+				if base.AdvancedSettings != nil {
+					m.AdvancedSettings = proto.Clone(base.AdvancedSettings).(*pb.ClientAdvancedSettings)
+				}
+				if patch.AdvancedSettings != nil {
+					if m.AdvancedSettings == nil {
+						m.AdvancedSettings = &pb.ClientAdvancedSettings{}
+					}
+					proto.Merge(m.AdvancedSettings, patch.AdvancedSettings)
+				}
+				want = m
+			}
+			if !equiv(f.sel(after), want) {
 				return c.fail("client-patch-not-applied", "field "+f.name+" set by the patch did not take effect", desc+"\nafter: "+show(after))
 			}
 		} else if !equiv(f.sel(after), f.sel(base)) {
